@@ -336,6 +336,10 @@ def _is_type_guard(test, field) -> bool:
         return all(_is_type_guard(v, field) for v in test.values)
     if isinstance(test, ast.Call) and isinstance(test.func, ast.Name) and test.func.id == "isinstance" and len(test.args) == 2 and not test.keywords:
         return _field_of(test.args[0]) == field and not any(isinstance(n, ast.Call) for n in ast.walk(test.args[1]))
+    # `self.F is None`, `self.F == MISSING`: tests for the two non-values a field can hold
+    if isinstance(test, ast.Compare) and len(test.ops) == 1 and _field_of(test.left) == field and isinstance(test.ops[0], (ast.Is, ast.IsNot, ast.Eq, ast.NotEq)):
+        c = test.comparators[0]
+        return (isinstance(c, ast.Constant) and c.value is None) or (isinstance(c, ast.Name) and c.id == "MISSING")
     return False
 
 
@@ -560,6 +564,10 @@ def _type_guard_truth(e, annotation):
         if isinstance(e.op, ast.And):
             return False if any(v is False for v in vs) else (None if any(v is None for v in vs) else True)
         return True if any(v is True for v in vs) else (None if any(v is None for v in vs) else False)
+    if isinstance(e, ast.Compare) and len(e.ops) == 1 and isinstance(e.ops[0], (ast.Is, ast.Eq)):
+        return False  # a value of the annotated type is neither None nor MISSING
+    if isinstance(e, ast.Compare) and len(e.ops) == 1 and isinstance(e.ops[0], (ast.IsNot, ast.NotEq)):
+        return True
     if isinstance(e, ast.Call) and isinstance(e.func, ast.Name) and e.func.id == "isinstance" and len(e.args) == 2:
         t = e.args[1]
         names = [ast.unparse(x) for x in t.elts] if isinstance(t, ast.Tuple) else [ast.unparse(t)]
@@ -1090,6 +1098,10 @@ def _runtime_dtypes(ctx, col):
             exprs += [k.value for k in n.keywords if k.arg == "dtype"]
             for e in exprs:
                 src = ast.unparse(e)
+                # np.zeros(x.shape, dtype=x.dtype) is np.zeros_like(x): the buffer has the kind of the very value it stands in for
+                if isinstance(e, ast.Attribute) and e.attr == "dtype" and isinstance(n.func, ast.Attribute) and n.func.attr in ("zeros", "ones", "empty", "full") \
+                        and n.args and isinstance(n.args[0], ast.Attribute) and n.args[0].attr == "shape" and ast.dump(n.args[0].value) == ast.dump(e.value):
+                    continue
                 if (isinstance(e, ast.Attribute) and e.attr == "dtype") or any(src.endswith("." + w) or src == w for w in NARROW):
                     bad.append((n, src))
         for n, src in bad:
